@@ -61,6 +61,7 @@ def check(m, run):
     _c16.sample_count_getters(m, run)       # the sampled grid has the documented size: no getter truncates 1 / delta
     c17.ev1_ag3(m, run)
     c17.dom1(m, run)
+    c17.domain_getter(m, run)
     ep1(m, run)
     ep2(m, run)
     c17.ev2(m, run)
@@ -80,6 +81,9 @@ def check(m, run):
     run.floor('BP1.basis-axis-pairing', 7, 'basis factors in surface/volume evaluate and derivatives')
     run.floor('AG3.data-keys', 40, 'keys read by evaluator methods')
     run.floor('RP1.rational-projection', 3, 'three rational evaluate methods')
+    # a shape handed to the evaluators may be a deep copy (every operation without inplace makes one): a copy that shares its cache with
+    # its source evaluates the source's weights
+    rs.iv4_deepcopy(m, run)
 
 
 def bp1(m, run, funcs):
